@@ -16,15 +16,12 @@ PROP = {
         "before'; ResInv (unique names/addresses, occupancy tags) for locating the failed proxy's chunk and for "
         "'a node served by p' = 'a node on that chunk half'. C06_reachable_failover / C06_reachable_epochs take "
         "the lifted forms (forall reachable s) as premises",
-        "the theorems speak about the unlimited view clusterStoreToCluster (migration_limit = 0); (c) holds for "
-        "every cluster value, hence also for limit_migration results",
+        "(a)-(d) are stated for the unlimited view clusterStoreToCluster cl and carried over to every "
+        "migration_limit by C06_limited (limit_migration commutes with the entry map of takeover_master and keeps "
+        "roles/addresses; no invariant needed); (c) holds for every cluster value",
         "epochs do not wrap (u64; modelled as Nat)",
     ],
     "gaps": [
-        "(a), (b), (d) are not restated for views cut by limit_migration (migration_limit > 0): limit_migration "
-        "looks at positions/ranges only (never at role positions or epochs) and keeps every range in its part, "
-        "but that commutation is not proved here; the correspondence oracle runs on limit 0 views, the "
-        "model/implementation diff on all limits",
         "'chunk partner is healthy' is not needed by (a), (c), (d), (e); for (b) the theorem is about the proxy "
         "that is failed over (no node of p is master afterwards). That no node of *any other* failed, unreplaced "
         "proxy is master is not an invariant of the code when both halves of a chunk fail one after the other "
@@ -62,6 +59,10 @@ CHECK = {
             "epoch e > every epoch served before (EpochInv), moved ends are served with the partner proxy and the "
             "promoted node (a master of the view that holds the part), unmoved ends keep their addresses - covers "
             "both parts when the chunk was already in First/SecondChunkMaster (the F2 case, fixed in 2ba2638); "
+            "(limit) for every migration_limit: limit_migration succeeds after the call if it did before, the limited "
+            "cluster after is the limited cluster before with the same entry map and role flip, (a) and (b) hold "
+            "between the two limited views and every limited entry is served with the descriptor of the stored entry "
+            "of the same meta, so (d) transfers; "
             "(e) a second takeover_master for the same proxy changes nothing but the global epoch, and a repeated "
             "replace_failed_proxy that again finds no replacement likewise; "
             "(f) generate_free_chunks / generate_new_free_proxy return only members of freeProxies = registered, in "
